@@ -34,10 +34,15 @@ Lemma table_view_key :
   is_nonmod c = true /\ reports_removal c = true /\ reports_reorder c = true /\ allows_append c = false.
 Proof. intros nm [-> | ->]; vm_compute; repeat split. Qed.
 
-(* nodes without a table row (type nodes, workspace nodes, Uniques, Containers, QueryArgs, QueryResult):
+(* Containers: insert-only (fix 9d1012ac0 of finding F15a) - new containers anywhere, removal reported *)
+Lemma table_containers :
+  let c := find_constraint "Containers" constrains in allows_insert c = true /\ reports_removal c = true.
+Proof. vm_compute. repeat split. Qed.
+
+(* nodes without a table row (type nodes, workspace nodes, Uniques, QueryArgs, QueryResult):
    everything is allowed below them *)
 Lemma table_unconstrained :
-  forall nm, In nm ["Containers"; "QueryArgs"; "QueryResult"; "Uniques"; "AppDef"; "app.T"] ->
+  forall nm, In nm ["QueryArgs"; "QueryResult"; "Uniques"; "AppDef"; "app.T"] ->
   find_constraint nm constrains = compat_c_all_allowed.
 Proof. intros nm H. cbn in H. repeat (destruct H as [<- | H]; [vm_compute; reflexivity|]). contradiction. Qed.
 
@@ -69,12 +74,11 @@ Theorem compat_at_any_depth :          (* ... inside any child of any node *)
   Compat constrains (Node nm v (a ++ c :: b)%list) (Node nm v (a ++ c' :: b)%list).
 Proof. exact (compat_inside_proved constrains). Qed.
 
-(* ---- 3. removals ----
-   Full statement (what the property says for fields, types and containers):
-     forall o n par x po pn, sub_at par o = Some po -> sub_at par n = Some pn ->
-       In x (names po) -> ~ In x (names pn) -> tname po ∈ {Fields, Types, PartKeyFields, ClustColsFields, Containers} ->
-       exists e ∈ check_compat o n, e_path e = par ++ [x].
-   Refuted by the current table for Containers (finding F15): *)
+(* ---- 3. removals: a child present in old and absent in new, under a node that exists in both
+   trees, is reported at the child's path whatever else changed - for every node whose constraint
+   reports removals, which the current table does for fields, types (application and workspace
+   level), key fields and containers (the last since fix 9d1012ac0; before it the statement was
+   refuted for Containers: finding F15a, corpus/C18/f15_container_removal.json) ---- *)
 Definition ex_tbl (nm : string) (fs cs : list tree) : tree :=
   Node nm VNil [Node "Uniques" VNil []; Node "Fields" VNil fs; Node "Containers" VNil cs; Node "Abstract" (VBool false) []].
 Definition ex_fld (nm : string) (k : N) : tree := Node nm (VKind k) [].
@@ -101,21 +105,7 @@ Definition ex_with (i : nat) (t : tree) : tree :=
   | x => x
   end.
 
-Theorem removal_reported_refuted :
-  exists o n par x po pn,
-    wfb o = true /\ wfb n = true /\
-    sub_at par o = Some po /\ sub_at par n = Some pn /\ tname po = "Containers" /\
-    In x (map tname (tprops po)) /\ ~ In x (map tname (tprops pn)) /\
-    check_compat constrains o n = [].
-Proof.
-  exists ex_old, (ex_with 2 (ex_tbl "app.T" [ex_fld "sys.ID" 11; ex_fld "a" 3; ex_fld "b" 8; ex_fld "c" 4] [Node "c1" (VStr "app.R") []])),
-         ["AppDef"; "Types"; "app.T"; "Containers"], "c0".
-  eexists. eexists. vm_compute. repeat split; try reflexivity; [left; reflexivity | intros [H|[]]; discriminate].
-Qed.
-
-(* Proved for every node whose constraint reports removals - the extra hypothesis is exactly what
-   excludes the witness above (Containers has no table row): *)
-Theorem removal_reported_partial :
+Theorem removal_reported :
   forall o n par x po pn,
   sub_at par o = Some po -> sub_at par n = Some pn ->
   In x (map tname (tprops po)) -> ~ In x (map tname (tprops pn)) ->
@@ -124,9 +114,9 @@ Theorem removal_reported_partial :
             e_constraint e = find_constraint (tname po) constrains /\ (e_type e = NodeRemoved \/ e_type e = NodeModified).
 Proof. exact (removal_reported_proved constrains). Qed.
 
-(* ... which holds for fields (tables, view values), types (application and workspace level) and key fields *)
+(* ... which holds for fields (tables, view values), types (application and workspace level), key fields and containers *)
 Theorem removal_reported_fields_types_keys :
-  forall nm, In nm ["Fields"; "Types"; "PartKeyFields"; "ClustColsFields"] ->
+  forall nm, In nm ["Fields"; "Types"; "PartKeyFields"; "ClustColsFields"; "Containers"] ->
   reports_removal (find_constraint nm constrains) = true.
 Proof. intros nm H. cbn in H. repeat (destruct H as [<- | H]; [vm_compute; reflexivity|]). contradiction. Qed.
 
@@ -217,6 +207,11 @@ Example insert_field_not_compat :
      ["AppDef"; "Types"; "app.T"; "Fields"; "b"]; ["AppDef"; "Types"; "app.T"; "Fields"; "c"]].
 Proof. vm_compute. split; reflexivity. Qed.
 
+Example container_removal_reported_nonvacuous :   (* container c0 removed from app.T (the F15a input) *)
+  let n := ex_with 2 (ex_tbl "app.T" [ex_fld "sys.ID" 11; ex_fld "a" 3; ex_fld "b" 8; ex_fld "c" 4] [Node "c1" (VStr "app.R") []]) in
+  check_compat constrains ex_old n = [mkerr compat_c_insert_only ["AppDef"; "Types"; "app.T"; "Containers"; "c0"] NodeRemoved].
+Proof. vm_compute. reflexivity. Qed.
+
 Example removal_reported_nonvacuous :   (* field b removed from app.T; type app.V removed *)
   let n1 := ex_with 2 (ex_tbl "app.T" [ex_fld "sys.ID" 11; ex_fld "a" 3; ex_fld "c" 4] [Node "c0" (VStr "app.R") []; Node "c1" (VStr "app.R") []]) in
   let n2 := ex_app [ex_cmd "app.C" (VStr "app.O") VNil; ex_qry "app.Q" [ex_fld "x" 3] [ex_fld "y" 8]; ex_T; ex_ws "app.W" ["app.C"; "app.Q"; "app.T"]] in
@@ -251,9 +246,9 @@ Example agrees_satisfies_nonvacuous :
   let t := mkTrace ex_old n (CRemoved ["AppDef"; "Types"; "app.T"; "Fields"; "b"])
                    [mkerr compat_c_append_only ["AppDef"; "Types"; "app.T"; "Fields"; "b"] NodeRemoved] [] in
   agrees t = true /\ covered constrains t = true /\ satisfies t = true /\
-  (* the F15 trace is reproduced by the model, not covered, and fails the oracle *)
-  let n' := ex_with 2 (ex_tbl "app.T" [ex_fld "sys.ID" 11; ex_fld "a" 3; ex_fld "b" 8; ex_fld "c" 4] [Node "c1" (VStr "app.R") []]) in
-  let t' := mkTrace ex_old n' (CRemoved ["AppDef"; "Types"; "app.T"; "Containers"; "c0"]) [] [] in
+  (* the F15b trace (query argument type changed) is reproduced by the model, not covered, and fails the oracle *)
+  let n' := ex_with 1 (ex_qry "app.Q" [ex_fld "z" 4; ex_fld "w" 3] [ex_fld "y" 8]) in
+  let t' := mkTrace ex_old n' (CChanged ["AppDef"; "Types"; "app.Q"; "QueryArgs"]) [] [] in
   agrees t' = true /\ covered constrains t' = false /\ satisfies t' = false.
 Proof. vm_compute. repeat split. Qed.
 
@@ -262,8 +257,7 @@ Print Assumptions compatible_changes_silent.
 Print Assumptions append_fields_is_compat.
 Print Assumptions insert_type_is_compat.
 Print Assumptions compat_at_any_depth.
-Print Assumptions removal_reported_refuted.
-Print Assumptions removal_reported_partial.
+Print Assumptions removal_reported.
 Print Assumptions removal_reported_fields_types_keys.
 Print Assumptions reorder_reported.
 Print Assumptions reorder_reported_fields_keys.
